@@ -162,10 +162,10 @@ func supervise(prop, tier string, replayScenario map[string]interface{}) int {
 				addRaceReports(total, base, dir)
 			}
 			if timedOut {
-				total.Inconc(fmt.Sprintf("shard %d: wall-clock watchdog (%s) fired; last scenario: %s; goroutine dump in %s", i, r.Timeout(tier), lastStart(progFile), logFile))
+				total.Inconc(fmt.Sprintf("shard %d: wall-clock watchdog (%s) fired; last scenario: %s; goroutine dump in %s (what the shard had observed until then is included)", i, r.Timeout(tier), lastStart(progFile), logFile))
 				return
 			}
-			if err != nil || !haveResult {
+			if err != nil {
 				kind, top, excerpt := crashInfo(logFile)
 				if kind == "" {
 					broken = true
@@ -267,7 +267,29 @@ func worker(a []string) {
 			_ = json.Unmarshal(b, &ctx.Replay)
 		}
 	}
+	// the result is also written every few seconds, so that a worker killed by the watchdog (or by a crash of the code
+	// under test) does not take what it had already observed - violations included - with it
+	stopFlush := make(chan struct{})
+	flushed := make(chan struct{})
+	go func() {
+		defer close(flushed)
+		for {
+			select {
+			case <-stopFlush:
+				return
+			case <-time.After(3 * time.Second):
+				if b, err := ctx.R.Snapshot(); err == nil {
+					tmp := resFile + ".tmp"
+					if os.WriteFile(tmp, b, 0o644) == nil {
+						_ = os.Rename(tmp, resFile)
+					}
+				}
+			}
+		}
+	}()
 	r.Run(ctx)
+	close(stopFlush)
+	<-flushed
 	ctx.R.Freeze()
 	b, err := json.Marshal(ctx.R)
 	if err != nil {
